@@ -8,12 +8,26 @@ import (
 	"testing"
 )
 
-func measure(f func()) uint64 {
+func measureOnce(f func()) uint64 {
 	var a, b runtime.MemStats
 	runtime.ReadMemStats(&a)
 	f()
 	runtime.ReadMemStats(&b)
 	return b.TotalAlloc - a.TotalAlloc
+}
+
+// measure returns the bytes allocated by f.  TotalAlloc is process-wide, so allocations of the
+// runtime's own background work (GC workers starting, profiling buffers) can land inside the
+// window; decoding is deterministic, so the minimum over a few repetitions removes them.  A
+// call that allocates more than 1 MiB is not repeated.
+func measure(f func()) uint64 {
+	m := measureOnce(f)
+	for i := 0; i < 3 && m > 64 && m <= 1<<20; i++ {
+		if x := measureOnce(f); x < m {
+			m = x
+		}
+	}
+	return m
 }
 
 func TestC20(t *testing.T) {
